@@ -48,7 +48,7 @@ META = {
               "baize.datastructures._cookie_is_legal_key -> same pattern through ReShim", "scripted server: send() raising at a symbolic call index"],
     "assumptions": ["header values handed to constructors are printable Latin-1 field content (what HTTP can carry); derived values (cookies, Location, "
                     "Content-Disposition) get arbitrary Unicode input", "JSON content is concrete (json.dumps is C code)"],
-    "bounds": {"quick": {"text_chars": 2, "stream_items": 2}, "thorough": {"text_chars": 3, "stream_items": 3}},
+    "bounds": {"quick": {"text_chars": 3, "stream_items": 3}, "thorough": {"text_chars": 4, "stream_items": 4}},
     "outside": ["WSGI SendEventResponse under early close (threads; see C06)", "longer texts", "response classes defined by users"],
     "expect_kinds": {"all": ["complete", "faulted"]},
 }
